@@ -20,7 +20,7 @@ RULE = (
     "generic subclass SubBox(Box[T]), concrete subclass IntBox(Box[int]), custom iterables MyIt(Iterable[T]), SubIt(MyIt[T]), "
     "TrkIt(MyIt[Trk]), subclasses whose parameter list differs from what the base uses: Tag(Box[K], Generic[K,V]), "
     "Tag2(Box[V], Generic[K,V]), Swap(Pair[U,T], Generic[T,U]), HalfPair(Pair[T,int]), It2(Iterable[V], Generic[K,V]), "
-    "TagInts(Tag[int,V]); dataclass Info, a registered collection class adding Top/N/Rest): every class gets 2-4 methods whose "
+    "TagInts(Tag[int,V]), Mix(PlainB, Generic[T]) whose first base is a plain class; dataclass Info with fields and methods, a registered collection class adding Top/N/Rest): every class gets 2-4 methods whose "
     "return annotation is drawn from a type grammar (scalars, classes, generic instantiations, own type variables, "
     "iterables of these, or no annotation). Expressions: method chains, Select/SelectMany/Where/First/Count/len/[0] on "
     "iterables, comparisons, and/or (also over operands that are not bool), + - * / // % over int / float / bool operands (bool counts as int: True + True == 2), dict literals and dataclass fields by attribute and key, depth <=4; 1-3 stream "
@@ -53,10 +53,13 @@ SKEL = {
     "HalfPair": (["T"], ["c", "Pair", [["tv", "T"], ["int"]]]),
     "It2": (["K", "V"], ["it", ["tv", "V"]]),
     "TagInts": (["V"], ["c", "Tag", [["int"], ["tv", "V"]]]),
+    # a generic class whose FIRST base is a plain class
+    "PlainB": ([], None),
+    "Mix": (["T"], ["c", "PlainB", []]),
     "Coll": (["T"], None),  # registered collection class (operators for every iterable)
     "Info": ([], None),  # dataclass
 }
-ORDER = ["Trk", "Jet", "Evt", "Box", "Pair", "SubBox", "IntBox", "MyIt", "SubIt", "TrkIt", "Tag", "Tag2", "Swap", "HalfPair", "It2", "TagInts"]
+ORDER = ["Trk", "Jet", "Evt", "Box", "Pair", "SubBox", "IntBox", "MyIt", "SubIt", "TrkIt", "Tag", "Tag2", "Swap", "HalfPair", "It2", "TagInts", "PlainB", "Mix"]
 RENAMES = {"Box": ["Container", "Collection", "Holder"], "Pair": ["Mapping", "Both"], "MyIt": ["Sequence", "Collection2", "Reversible"], "Jet": ["Hashable", "Sized"]}
 GEN1 = ["Box", "SubBox", "MyIt", "SubIt", "HalfPair", "TagInts"]
 GEN2 = ["Pair", "Pair", "Tag", "Tag2", "Swap", "It2"]
@@ -174,10 +177,13 @@ def _model(draw):
     m[draw(st.sampled_from(["Jet", "Trk"]))].append(["raw", None])
     m[draw(st.sampled_from(["Evt", "Jet"]))].append(["anys", draw(st.sampled_from([["it", ["any"]], ["c", "MyIt", [["any"]]]]))])
     m["It2"].append(["Key", ["tv", "K"]])
+    m["Mix"].append(["got", ["tv", "T"]])
+    # the dataclass has methods next to its fields
+    m["Info"] = [["score", draw(st.sampled_from(_SCAL + [["c", "Trk", []], ["it", ["c", "Trk", []]]]))], ["raw", None]]
     # the sources of the mixed-arity subclasses must be reachable from the event
     holder = draw(st.sampled_from(["Evt", "Jet"]))
     a, b = draw(st.sampled_from(_SCAL + [["c", "Trk", []]])), draw(st.sampled_from(_SCAL + [["c", "Jet", []]]))
-    m[holder].append(["mixed", draw(st.sampled_from([["c", "Tag", [a, b]], ["c", "Tag2", [a, b]], ["c", "Swap", [a, b]], ["c", "HalfPair", [a]], ["c", "It2", [a, b]], ["c", "TagInts", [b]]]))])
+    m[holder].append(["mixed", draw(st.sampled_from([["c", "Tag", [a, b]], ["c", "Tag2", [a, b]], ["c", "Swap", [a, b]], ["c", "HalfPair", [a]], ["c", "It2", [a, b]], ["c", "TagInts", [b]], ["c", "Mix", [a]], ["c", "Mix", [b]]]))])
     return m
 
 
@@ -493,7 +499,8 @@ def build(model, rename=None, partial=()):
                 body.append(f"    def {name}(self){' -> ' + repr(a) if a else ''}: ...")
         src.append("\n".join(body) if body else "    pass")
     # string annotations (forward references / `from __future__ import annotations` style) next to plain ones
-    src.append("@dataclasses.dataclass\nclass Info:\n    x: int\n    w: 'float'\n    trk: 'Trk'\n    trks: 'Iterable[Trk]'")
+    info_methods = "".join(f"\n    def {name}(self){' -> ' + repr(ann(ret)) if ret is not None and ann(ret) else ''}: ..." for name, ret in model.get("Info", []))
+    src.append("@dataclasses.dataclass\nclass Info:\n    x: int\n    w: 'float'\n    trk: 'Trk'\n    trks: 'Iterable[Trk]'" + info_methods)
     src.append("class Coll(ObjectStream[T]):\n    def __init__(self, a, item_type=Any):\n        super().__init__(a, item_type)\n"
                "    def Top(self) -> T: ...\n    def N(self) -> int: ...\n    def Rest(self) -> Iterable[T]: ...")
     from vf.common import srcgen
